@@ -1,7 +1,8 @@
 (* C09/Proofs.v — the property-level statements of C09/Props.v assembled from the Store lemmas,
    plus non-vacuity examples (concrete runs of the model in which each clause's hypotheses hold). *)
 From Coq Require Import List NArith ZArith Bool Lia.
-From BLB Require Import Gen.Consts Store.Bytes Store.MapProofs Store.Model Store.Proofs Store.WF Store.Conflict Store.Mono C09.Model.
+From BLB Require Import Gen.Consts Store.Bytes Store.MapProofs Store.Model Store.Proofs Store.WF Store.Conflict Store.Mono
+     Store.Steps Store.Monotone Store.Readd C09.Model.
 Import ListNotations.
 
 Lemma reachable_wf_lemma : forall m ops, wf (run (init m) ops).
@@ -141,6 +142,49 @@ Proof.
   - intros f Hc. now destruct (remove_tract_gone s t f Hc) as (_ & B & _).
 Qed.
 
+Lemma reachable_inv_lemma : forall m ops, inv (run (init m) ops).
+Proof. intros. apply inv_run, inv_init. Qed.
+
+Lemma version_monotone_lemma :
+  forall m ops,
+    let s := run (init m) ops in
+    (forall o pd t, copy_change s o pd t (copy s pd t) (copy (fst (step s o)) pd t)) /\
+    (forall o pd t f f',
+        copy s pd t = Some f -> copy (fst (step s o)) pd t = Some f' ->
+        ver_le f f' /\
+        (forall c c', f_ver f = Some c -> f_ver f' = Some c' -> (c < c')%Z ->
+           (exists cond, o = SetVersion t c' cond /\ c' = (c + 1)%Z /\ f_data f' = f_data f) \/
+           (exists srcs orc re data, o = PullTract t srcs c' orc /\ In (re, data) srcs /\ ok_reply re /\
+                                     f' = mkfile (Some c') (rle_write [] data 0%N)))) /\
+    versioned s /\
+    (forall ops2 pd t f f',
+        stored_throughout s ops2 pd t -> copy s pd t = Some f ->
+        copy (run s ops2) pd t = Some f' -> ver_le f f') /\
+    (forall ops2 t f f',
+        served_throughout s ops2 t -> cur s t = Some f ->
+        cur (run s ops2) t = Some f' -> ver_le f f').
+Proof.
+  intros m ops s. destruct (reachable_inv_lemma m ops) as [W V]. fold s in W, V.
+  split; [intros; now apply copy_step_cases|].
+  split.
+  { intros o pd t f f' C C'. split; [eapply copy_step_mono; eauto|].
+    intros c c' Hc Hc' Hlt. eapply copy_rise_cases; eauto. }
+  split; [exact V|]. split.
+  - intros ops2 pd t f f' ST C C'. exact (copy_monotone ops2 s pd t f f' W ST C C').
+  - intros ops2 t f f' ST C C'. exact (served_monotone ops2 s t f f' (conj W V) ST C C').
+Qed.
+
+Lemma restart_readd_lemma :
+  forall m ops l s',
+    let s := run (init m) ops in
+    NoDup l -> (forall p, In p l <-> attached s p) ->
+    adds (restart s) l = Some s' ->
+    run s (Restart :: map AddDisk l) = s' /\ disks s' = disks s /\ forall t, cur s' t = cur s t.
+Proof.
+  intros m ops l s' s ND AT H.
+  destruct (restart_readd s (reachable_wf_lemma m ops) l s' ND AT H) as (R & _ & D & V). auto.
+Qed.
+
 (* ---------- non-vacuity: concrete histories in which the clauses' hypotheses hold ---------- *)
 Open Scope N_scope.
 Definition d5 : rle := [(3, 5)].
@@ -195,3 +239,41 @@ Example ex_gc :
   cur (gc_tracts (run (init false) h1) [(0, 2%Z)] []) 0 = None /\
   cur (gc_tracts (run (init false) h1) [] [0]) 0 = None.
 Proof. vm_compute. auto. Qed.
+
+(* ---------- non-vacuity for version_monotone / restart_readd_restores_view ---------- *)
+(* tract 0 stays served while it is bumped, re-pulled from the second of two sources onto the OTHER disk
+   (first source fails after the local copy is already deleted), written, bumped again: 2 -> 3 -> 3 -> 4 *)
+Definition h4 : list op :=
+  [SetVersion 0 3%Z None; PullTract 0 [(st_NoSpace, []); (E_EOF, d7)] 3%Z 1; Write 0 3%Z d5 1;
+   SetVersion 0 4%Z None; GCTracts [(0, 3%Z)] []; Check [(0, 9%Z)]].
+Example ex_served_throughout :
+  let s := run (init false) h1 in
+  served_throughout s h4 0 /\
+  cur_ver s 0 = Some 2%Z /\ cur_ver (run s h4) 0 = Some 4%Z /\
+  (* the copy moved from disk 0 to disk 1 inside the PullTract *)
+  copy s 0 0 <> None /\ copy (run s h4) 0 0 = None /\ copy (run s h4) 1 0 <> None.
+Proof. vm_compute. repeat split; discriminate. Qed.
+Example ex_stored_throughout :
+  stored_throughout (run (init false) h1) [SetVersion 0 3%Z None; Write 0 3%Z d7 0; Restart; AddDisk 1; AddDisk 0] 0 0.
+Proof. vm_compute. repeat split; discriminate. Qed.
+(* the three ways a copy stops existing *)
+Example ex_stop_gc :
+  copy (run (init false) h1) 0 0 <> None /\ copy (fst (step (run (init false) h1) (GCTracts [(0, 2%Z)] []))) 0 0 = None.
+Proof. vm_compute. split; [discriminate|reflexivity]. Qed.
+Example ex_stop_pull :
+  copy (fst (step (run (init false) h1) (PullTract 0 [(st_NoSpace, [])] 2%Z 0))) 0 0 = None.
+Proof. vm_compute. reflexivity. Qed.
+Example ex_stop_conflict :
+  copy (run (init false) h2) 1 0 <> None /\ copy (fst (step (run (init false) h2) (AddDisk 0))) 1 0 = None.
+Proof. vm_compute. split; [discriminate|reflexivity]. Qed.
+(* restart, then the two disks in the other order *)
+Definition h5 : list op := h1 ++ [Create 1 d7 0 1; SetVersion 1 2%Z None].
+Example ex_readd :
+  let s := run (init true) h5 in
+  exists s', adds (restart s) [1; 0] = Some s' /\
+             cur s' 0 = cur s 0 /\ cur s' 1 = cur s 1 /\ cur s 0 <> None /\ cur s 1 <> None /\
+             attached s 0 /\ attached s 1.
+Proof.
+  eexists. split; [vm_compute; reflexivity|]. vm_compute.
+  repeat split; try discriminate; [exists 0%N|exists 1%N]; reflexivity.
+Qed.
